@@ -698,6 +698,21 @@ class Program:
                  and self._sig_raw(f) == anchors[a]["sig"]]
             if len(c) == 1 and c[0] not in ren.values():
                 ren[a] = c[0]
+        # second chance: the function kept its name and signature but changed its home (moved to another module of the same crate, or a
+        # private free function turned into a method or back); accepted only when exactly one such function exists
+        def last(q):
+            return re.sub(r"<[^<>]*>", "", q.rsplit("::", 1)[-1])
+
+        def crate_of(q):
+            m = re.match(r"<?([a-z_][a-z_0-9]*)::", q)
+            return m.group(1) if m else q
+        for a in missing:
+            if a in ren or anchors[a]["sig"][0] == "Closure":
+                continue
+            c = [q for q, f in have.items() if q not in anchors and q not in ren.values() and f["kind"] != "Closure" and last(q) == last(a)
+                 and crate_of(q) == crate_of(a) and self._sig_raw(f)[1:] == anchors[a]["sig"][1:]]
+            if len(c) == 1:
+                ren[a] = c[0]
         if not ren:
             return {}
         back = {new: old for old, new in ren.items()}
@@ -725,7 +740,7 @@ class Program:
         for unit, j in raw.items():
             fix(j)
         for old, new in ren.items():
-            print("[anchors] %s is analysed under its reference name %s (same parent, kind and signature)" % (new, old), file=sys.stderr)
+            print("[anchors] %s is analysed under its reference name %s (same signature; same parent, or same name elsewhere in the crate)" % (new, old), file=sys.stderr)
         return ren
 
     def dump_anchors(self, out):
@@ -871,3 +886,15 @@ def const_text(d):
             i += 1
         return "".join(out)
     return None
+
+
+def same_modulo_depth(a, b):
+    """structural equality of two descriptors where `unknown` (the point at which descriptor expansion stopped) matches anything:
+    the same value described from two program points is cut off at different depths"""
+    if a == b:
+        return True
+    if isinstance(a, tuple) and a[:1] == ("unknown",) or isinstance(b, tuple) and b[:1] == ("unknown",):
+        return True
+    if isinstance(a, tuple) and isinstance(b, tuple) and len(a) == len(b):
+        return all(same_modulo_depth(x, y) for x, y in zip(a, b))
+    return False
